@@ -15,7 +15,7 @@ RULE = ('clex built on every run from the working tree: clex/driver.c compiled w
         'generated from clex/clex.l by tools/gen/lexgen.py (flex is not installed; the actions and user code of clex.l are embedded '
         'verbatim); inputs: all sequences up to a length bound over a token alphabet (identifiers, keywords, "#", "define", strings, '
         'empty strings, wide strings, char literals, numbers, operators, comment openers/closers, backslash-newline, lone backslash, '
-        'blanks, newlines, a high byte) plus random C-like text; modes print, rm-toks-{1,2,3,16,32}, rm-tok-pattern-{2,4}, delete-string, '
+        'blanks, newlines, a high byte) plus random C-like text; modes print, rm-toks-{1,2,3,16,32}, rm-tok-pattern-{2,4,8} (consecutive indices plus high pattern bits and later windows), delete-string, '
         'rename-toks, define; indices 0.. up to the first STOP and three beyond; every run: exit status in {51,71}, no sanitizer '
         'report, STOP never followed by OK at a larger index, and exit status + stdout equal to the Coq model evaluated inside Coq; the '
         'scanner stand-in (DFA built in Python) is compared with the Coq derivative matcher token by token; non-trivial = distinct '
@@ -30,7 +30,7 @@ ASSUMPTIONS = ['inputs contain no NUL byte (tokens are C strings: strdup / print
 
 ALPHA = ['a', 'zz', 'B', ' ', '\n', '#', 'define', '"s"', '""', 'L"w"', "'c'", '1', '0x1F', ';', '(', ')', '/*', '*/', '*', '/', '\\\n', '\\', '\x80', '"', 'int', '\t']
 MODES = [('print', 0, 0), ('rm-toks-1', 1, 1), ('rm-toks-2', 1, 2), ('rm-toks-3', 1, 3), ('rm-toks-16', 1, 16), ('rm-toks-32', 1, 32),
-         ('rm-tok-pattern-2', 2, 2), ('rm-tok-pattern-4', 2, 4), ('delete-string', 3, 0), ('rename-toks', 4, 0), ('define', 5, 0)]
+         ('rm-tok-pattern-2', 2, 2), ('rm-tok-pattern-4', 2, 4), ('rm-tok-pattern-8', 2, 8), ('delete-string', 3, 0), ('rename-toks', 4, 0), ('define', 5, 0)]
 
 DUMP_MAIN = r'''
 #include <stdio.h>
@@ -150,6 +150,18 @@ def explore(ctx):
             if mname == 'print':
                 break
             idx += 1
+        if k == 2:
+            # pattern modes: high pattern bits and later windows are far beyond the consecutive block
+            np_ = 2 ** (n - 1)
+            done = {r[0] for r in res}
+            for s_ in (0, 1, 2, 5, 40):
+                for p_ in (np_ - 1, np_ // 2, np_ // 2 + 1, (3 * np_) // 4):
+                    j = s_ * np_ + p_
+                    if j not in done:
+                        done.add(j)
+                        rc, out, err = run_clex(exe, mname, j, paths[i])
+                        res.append((j, rc, out, err))
+            res.sort(key=lambda r: r[0])
         return job, res
 
     jobs = [(i, m) for i in range(len(inputs)) for m in modes]
@@ -263,9 +275,9 @@ LEVEL_TEXT = ('Machine-checked over a model of the scanner (derivative-based lon
               'define / replace_macro modelled at index level, never reads outside the token array (after fix 47ede41); the lexemes '
               'partition the input and print mode outputs the input minus continuation and block-comment lexemes; rm-toks-N produces output '
               'iff idx < number of non-blank tokens and keeps exactly the non-blank tokens of rank outside idx..idx+N-1, as a subsequence; '
-              'rm-tok-pattern-N keeps all blanks, outputs iff the window start is an instance; for every mode the OK indices form a prefix. '
+              'rm-tok-pattern-N keeps all blanks, outputs iff the window start is an instance and removes exactly the window members whose pattern bit is set; for every mode the OK indices form a prefix. '
               'The model is tied on every run to the real driver.c built with ASan+UBSan (exit status and stdout compared inside Coq).')
-LEVEL_NOTE = ('Partial: which window members rm-tok-pattern removes is tied by correspondence only; memory safety of the real binary is what the '
+LEVEL_NOTE = ('Memory safety of the real binary is what the '
               'sanitizers report on explored inputs (proved only as "no out-of-range subscript" on the model). The flex-generated scanner itself '
               'cannot be built offline: a generated stand-in embeds the real actions. Trusted: Coq kernel, lexgen.py, sanitizers.')
 TECHNIQUE = 'Rocq proof (scanner partition/longest-match model, token-array modes, index-level bounds) + sanitizer-instrumented build of the real driver.c compared with the model inside Coq'
